@@ -12,7 +12,7 @@ open Babylon.Core
 variable {p : Params} {s s' : State}
 
 structure InvA (p : Params) (s : State) : Prop where
-  presets : s.running = true → ∀ d, d < p.g.nData → p.g.nIn ≤ d → p.inp d ≠ none → s.sealed d = true
+  presets : s.running = true → ∀ v k d, p.g.Produces v k d → p.inp d ≠ none → s.sealed d = true
   sealed_lt : ∀ d, s.sealed d = true → d < p.g.nData
   idle_inact : s.running = false → ∀ v, s.vact v = false
 
@@ -21,10 +21,10 @@ theorem invA_init : InvA p State.init := by
 
 theorem invA_sealData {d : Nat} {x : Option Val} (hi : InvA p s) (hd : d < p.g.nData) : InvA p (sealData s d x) := by
   obtain ⟨i1, i2, i3⟩ := hi
-  refine ⟨fun hr e he hin hne => ?_, fun e he => ?_, i3⟩
+  refine ⟨fun hr v k e he hne => ?_, fun e he => ?_, i3⟩
   · by_cases hed : e = d
     · subst hed; simp [sealData, upd_same]
-    · simp only [sealData, upd_other _ _ hed]; exact i1 hr e he hin hne
+    · simp only [sealData, upd_other _ _ hed]; exact i1 hr v k e he hne
   · by_cases hed : e = d
     · subst hed; exact hd
     · simp only [sealData, upd_other _ _ hed] at he; exact i2 e he
@@ -40,7 +40,8 @@ theorem invA_step (hwf : WF p) {e : Ev} (hi : InvA p s) (h : stepEvent p s e = s
   | run =>
     obtain ⟨h1, h2, h3⟩ := step_run h
     rw [h3]
-    exact ⟨fun _ d hd hin hne => h2 d hd hin hne, hi.sealed_lt, fun hr => by simp at hr⟩
+    exact ⟨fun _ v k d hp hne => h2 d (hwf.emit_ge v k d hp).2 (by rw [producer_eq hwf hp]; simp) hne,
+      hi.sealed_lt, fun hr => by simp at hr⟩
   | bind =>
     obtain ⟨_, _, d, _, h4 | h4⟩ := step_bind h
     · rw [h4.2]; exact ⟨hi.presets, hi.sealed_lt, hi.idle_inact⟩
@@ -166,8 +167,16 @@ theorem invI_step (hwf : WF p) {e : Ev} (hv : InvV p s) (hw : InvW p s) (ha : In
   cases e with
   | envSeal d x =>
     obtain ⟨h1, h2, h3, h4 | h4⟩ := step_envSeal h
-    · rw [h4.2]; intro hf; exact invI_sealData hi hf (evalSeq_inp p h3 h2).symm
-    · rw [h4.2.2]; intro hf; exact invI_sealData (x := x) hi hf (evalSeq_inp p h3 h2).symm
+    · rw [h4.2]; intro hf
+      have hf' : s.fin = none := hf
+      rcases h2 with h2 | h2
+      · exact invI_sealData hi hf (evalSeq_inp p h3 h2).symm
+      · rw [hf'] at h2; cases h2.2.1
+    · rw [h4.2.2]; intro hf
+      have hf' : s.fin = none := hf
+      rcases h2 with h2 | h2
+      · exact invI_sealData (x := x) hi hf (evalSeq_inp p h3 h2).symm
+      · rw [hf'] at h2; cases h2.2.1
   | run => rw [(step_run h).2.2]; exact hi
   | bind =>
     obtain ⟨_, _, d, _, h4 | h4⟩ := step_bind h
@@ -185,10 +194,9 @@ theorem invI_step (hwf : WF p) {e : Ev} (hv : InvV p s) (hw : InvW p s) (ha : In
     · subst huv
       refine ⟨h3, e, he, demandable_needed hwf hw hi hf hde, ?_⟩
       obtain ⟨k, hk⟩ := List.mem_iff_getElem?.mp he
-      obtain ⟨hge, hlt⟩ := hwf.emit_ge u k e hk
       by_cases hin : p.inp e = none
       · exact hin
-      · have := ha.presets hr e hlt hge hin
+      · have := ha.presets hr u k e hk hin
         rw [hse] at this; cases this
     · simp only [upd_other _ _ huv] at hu; exact i2 u hu
   | dactivate v => rw [(step_dactivate h).2.2]; exact hi
@@ -206,10 +214,9 @@ theorem invI_step (hwf : WF p) {e : Ev} (hv : InvV p s) (hw : InvW p s) (ha : In
     rcases h5 with h5 | h5
     · obtain ⟨i1, _⟩ := hi hf'
       have hin : p.inp d = none := by
-        obtain ⟨hge, hlt⟩ := hwf.emit_ge v k d hp
         by_cases hin : p.inp d = none
         · exact hin
-        · have := ha.presets hr d hlt hge hin
+        · have := ha.presets hr v k d hp hin
           rw [h2] at this; cases this
       rw [h5, evalSeq_produced p hwf hp hin]
       apply vertexOut_congr
